@@ -44,6 +44,8 @@ pos_of = z3.Function('pos', Node, UStr)
 # the fixed total order in which lowest_common_hypernyms() lists its result: sorted by (rowid, ILI) - contract of
 # wn.taxonomy._shortest_hyp_paths / _synset_sort_key (C13, C16); injective on the synsets of one Wordnet
 rank = z3.Function('sort_rank', Node, z3.IntSort())
+# common hypernyms (ancestors-or-self of both): contract of Synset.common_hypernyms (C13); the lowest ones are among them
+in_common = z3.Function('in_common', Node, Node, z3.BoolSort(), Node, z3.BoolSort())
 
 
 def collect_terms(formulas):
@@ -63,7 +65,7 @@ def collect_terms(formulas):
             d = x.decl()
             if x.sort() == Node and x.num_args() == 0 and d.kind() == z3.Z3_OP_UNINTERPRETED:
                 nodes[x.get_id()] = x
-            if d.name() in ('dist', 'conn', 'has_lcs', 'in_lcs') and x.num_args() >= 3 and not has_var(x.arg(2)):
+            if d.name() in ('dist', 'conn', 'has_lcs', 'in_lcs', 'in_common') and x.num_args() >= 3 and not has_var(x.arg(2)):
                 srs[x.arg(2).get_id()] = x.arg(2)
             if d.name() == 'log' and not has_var(x.arg(0)):
                 logs[x.arg(0).get_id()] = x.arg(0)
@@ -107,7 +109,11 @@ def graph_axioms(formulas=()):
                 for c in nodes:
                     sat, adj = LITS.lit('s'), LITS.lit('a')
                     npos = lambda x: z3.If(pos_of(x) == sat, adj, pos_of(x))
-                    out += [z3.Implies(in_lcs(a, b, sr, c), npos(c) == npos(a)),
+                    out += [z3.Implies(in_lcs(a, b, sr, c), in_common(a, b, sr, c)),
+                            z3.Implies(in_common(a, b, sr, c), z3.And(has_lcs(a, b, sr), npos(c) == npos(a),
+                                                                      conn(a, c, sr), conn(b, c, sr))),
+                            in_common(a, b, sr, c) == in_common(b, a, sr, c),
+                            z3.Implies(in_lcs(a, b, sr, c), npos(c) == npos(a)),
                             in_lcs(a, b, sr, c) == in_lcs(b, a, sr, c),
                             z3.Implies(in_lcs(a, b, sr, c), z3.And(conn(a, c, sr), conn(b, c, sr), has_lcs(a, b, sr),
                                                                    dist(a, c, sr) + dist(b, c, sr) >= dist(a, b, sr)))]
@@ -172,6 +178,12 @@ class SynNode(SObj):
                 sr = _sr(k.get('simulate_root', a[1] if len(a) > 1 else False))
                 return LCSList(me.n, other.n, sr)
             return SymMethod(lch, 'lowest_common_hypernyms')
+        if name == 'common_hypernyms':
+            def ch(i, a, k, nd):
+                other = a[0]
+                sr = _sr(k.get('simulate_root', a[1] if len(a) > 1 else False))
+                return LCSList(me.n, other.n, sr, in_common)
+            return SymMethod(ch, 'common_hypernyms')
         if name == 'max_depth':
             return SymMethod(lambda i, a, k, nd: SV('int', depth(me.n)), 'max_depth')
         return NotImplemented
@@ -202,8 +214,9 @@ class LCSList(SeqBase):
     iteration order); max(key=f) is a member maximising f."""
     _k = 0
 
-    def __init__(self, a, b, sr):
+    def __init__(self, a, b, sr, pred=None):
         self.a, self.b, self.sr = a, b, sr
+        self.pred = in_lcs if pred is None else pred           # in_lcs (lowest common hypernyms) or in_common (all common hypernyms)
 
     def __hash__(self):
         return id(self)
@@ -214,10 +227,13 @@ class LCSList(SeqBase):
     def leaves(self):
         raise Unsupported('iteration over the lowest common hypernyms')
 
+    def vc_truthy(self, it):
+        return self.nonempty()
+
     def pick(self, it, tag):
         LCSList._k += 1
         s = SynNode(f'lcs{LCSList._k}_{tag}')
-        it.ctx.assume(in_lcs(self.a, self.b, self.sr, s.n))
+        it.ctx.assume(self.pred(self.a, self.b, self.sr, s.n))
         return s
 
     def vc_index(self, it, idx, node):
@@ -227,19 +243,19 @@ class LCSList(SeqBase):
         s = self.pick(it, 'first')
         # the list is sorted: its first element is the member that comes first in the fixed order
         m = z3.Const(f'lcs_any{LCSList._k}', Node)
-        it.ctx.assume(z3.ForAll([m], z3.Implies(in_lcs(self.a, self.b, self.sr, m), rank(s.n) <= rank(m)),
-                                patterns=[in_lcs(self.a, self.b, self.sr, m)]))
+        it.ctx.assume(z3.ForAll([m], z3.Implies(self.pred(self.a, self.b, self.sr, m), rank(s.n) <= rank(m)),
+                                patterns=[self.pred(self.a, self.b, self.sr, m)]))
         return s
 
     def vc_minmax(self, it, is_max, key, default, node):
         s = self.pick(it, 'argmax')
         m = SynNode('anyLCS')
         # the key function is only ever applied to members of the collection
-        it.ctx.assume(in_lcs(self.a, self.b, self.sr, m.n))
+        it.ctx.assume(self.pred(self.a, self.b, self.sr, m.n))
         kv = it.call(key, [s], {}, node)
         km = it.call(key, [m], {}, node)
         c = km.z <= kv.z if is_max else km.z >= kv.z
-        it.ctx.assume(z3.ForAll([m.n], z3.Implies(in_lcs(self.a, self.b, self.sr, m.n), c)))
+        it.ctx.assume(z3.ForAll([m.n], z3.Implies(self.pred(self.a, self.b, self.sr, m.n), c)))
         return s
 
 
@@ -433,9 +449,10 @@ def deductive_obligations() -> list:
             # jcn / lin (docs): c0 = the lowest common hypernym with the highest information content WEIGHT
             best = lambda cc: z3.And(in_lcs(a.n, b.n, z3.BoolVal(False), cc), z3.ForAll(
                 [m], z3.Implies(in_lcs(a.n, b.n, z3.BoolVal(False), m), weight(P, m) <= weight(P, cc))))
-            # res (docs): the MAXIMUM information content over the common subsumers (= over the lowest ones)
-            most_informative = lambda cc: z3.And(in_lcs(a.n, b.n, z3.BoolVal(False), cc), z3.ForAll(
-                [m], z3.Implies(in_lcs(a.n, b.n, z3.BoolVal(False), m), weight(P, m) >= weight(P, cc))))
+            # res (docs): the MAXIMUM information content over ALL common subsumers (the lowest ones - greatest depth -
+            # need not contain it: fixed finding F32)
+            most_informative = lambda cc: z3.And(in_common(a.n, b.n, z3.BoolVal(False), cc), z3.ForAll(
+                [m], z3.Implies(in_common(a.n, b.n, z3.BoolVal(False), m), weight(P, m) >= weight(P, cc))))
             Ex = lambda body: exists_over(pc, body)
             fid, restr = None, None
             if fname == 'res':
@@ -532,7 +549,17 @@ def bounded(sess: Session):
     got = S.res(nodes[0], nodes[1], freq)
     want = -math.log(2.0 / 10.0)
     ok = abs(got - want) < 1e-12 and abs(S.res(nodes[1], nodes[0], freq) - want) < 1e-12
-    sess.add_bounded('wn.similarity.res (several lowest common hypernyms)', 'one 4-node graph, weights 5 and 2', 2,
+    # ... and with a more informative common hypernym that is NOT among the lowest ones (c2 at depth 1, c1 at depth 2)
+    nodes2, w2 = G.build(((2, 3), (2, 3), (6,), (7,), (2,), (7,), (7,), ()))
+    freq2 = {p: {None: 40.0} for p in 'nvar'}
+    freq2['n'].update({'ss0': 1.0, 'ss1': 1.0, 'ss2': 13.0, 'ss3': 3.0, 'ss4': 10.0, 'ss5': 5.0, 'ss6': 15.0, 'ss7': 20.0})
+    got2 = S.res(nodes2[0], nodes2[1], freq2)
+    want2 = -math.log(3.0 / 40.0)
+    if abs(got2 - want2) >= 1e-12:
+        ok = False
+        got, want = got2, want2
+    sess.add_bounded('wn.similarity.res (several lowest common hypernyms)', 'a 4-node graph (weights 5 and 2) and an '
+                     '8-node graph whose most informative common hypernym is not a lowest one', 3,
                      'native execution against the documented maximum', ok)
     if not ok:
         sess.violation_direct('wn.similarity.res:maximum-ic', f'res = {got}, the maximum information content of the '
